@@ -49,6 +49,9 @@ def multiset_eq(a: list[dict], b: list[dict]) -> str:
 
 def monotone(rows, reverse=False) -> bool:
     off = [r["offset"] for r in rows]
+    if any(o is NAN for o in off):
+        return True  # a missing time has no place in an order: not judged
+
     if reverse:
         return all(off[i] >= off[i + 1] for i in range(len(off) - 1))
     return all(off[i] <= off[i + 1] for i in range(len(off) - 1))
